@@ -301,8 +301,6 @@ Definition test_strict (t : testarg) : bool :=
 Definition not_test_not (t : testarg) : bool := match t with TTestNot _ => false | _ => true end.
 Definition not_nil (s : seqin) : bool := match s with SNil => false | _ => true end.
 Definition is_list (s : seqin) : bool := match s with SNil | SList _ => true | _ => false end.
-Definition count_not_nil (c : countarg) : bool := match c with CNil => false | _ => true end.
-Definition count_not_num (c : countarg) : bool := match c with CNum _ => false | _ => true end.
 Definition start_absent (o : option nat) : bool := match o with None => true | Some _ => false end.
 
 (* only keywords the function has: :test for the item functions, :count for remove / delete / substitute *)
@@ -327,37 +325,19 @@ Definition in_domain (c : call) : bool :=
   let l1 := elems (c_seq c) in let l2 := elems (c_seq2 c) in
   bounds_ok c && seq_ok (c_seq c) && seq_ok (c_seq2 c) && keywords_ok c &&
   match c_fn c with
-  | FFind | FPosition => not_test_not (c_test c)                       (* KF :test-not *)
-  | FFindIf | FPositionIf => true
-  | FCount => not_test_not (c_test c) && seq_ascii (c_seq c)          (* KF count on a non-ASCII string *)
-  | FCountIf => seq_ascii (c_seq c)
-  | FRemove | FDelete => not_test_not (c_test c) && count_not_nil (c_count c)    (* KF :count nil *)
-  | FRemoveIf | FDeleteIf => count_not_nil (c_count c)
-  | FSubstitute | FNsubstitute => not_test_not (c_test c) && count_not_num (c_count c)   (* KF :count counts looks *)
-  | FSubstituteIf | FNsubstituteIf => count_not_num (c_count c)
+  | FFind | FPosition | FCount | FRemove | FDelete => true
+  | FFindIf | FPositionIf | FCountIf | FRemoveIf | FDeleteIf => true
+  | FSubstitute | FNsubstitute | FSubstituteIf | FNsubstituteIf => true
   | FRemoveDuplicates | FDeleteDuplicates =>
-      (* a non-transitive test makes "matches a later element" and "matches a later KEPT element"
-         differ; under :from-end the argument order of the test is only fixed for symmetric tests *)
-      test_transitive (c_test c) && (negb (c_from_end c) || test_symmetric (c_test c))
-  | FMember => is_list (c_seq c) && not_test_not (c_test c)
-  | FMemberIf => is_list (c_seq c)
-  | FAssoc | FRassoc =>                                                (* KF nil alist; KF test(key, item) *)
-      is_list (c_seq c) && not_nil (c_seq c) && test_symmetric (c_test c)
-  | FAssocIf | FAssocIfNot | FRassocIf => is_list (c_seq c) && not_nil (c_seq c)
-  | FSearch =>
-      bounds2_ok c && not_test_not (c_test c) &&
-      (let w1 := map (key_app (c_key c)) (slice (s_start c) (s_end c l1) l1) in
-       let w2 := map (key_app (c_key c)) (slice (s_start2 c) (s_end2 c l2) l2) in
-       match w1 with
-       | [] => (s_start2 c =? 0)%nat                                   (* KF empty pattern: offset without start2 *)
-       | _ => negb (c_from_end c) || negb (s_prefix_match (c_test c) w1 w2)   (* KF from-end never tries offset 0 *)
-       end)
+      (* under :from-end the test receives (later element, earlier element): the order the language
+         implies (sequence order) only for symmetric tests *)
+      negb (c_from_end c) || test_symmetric (c_test c)
+  | FMember | FMemberIf => is_list (c_seq c)
+  | FAssoc | FRassoc | FAssocIf | FAssocIfNot | FRassocIf => is_list (c_seq c)
+  | FSearch => bounds2_ok c
   | FMismatch =>
-      bounds2_ok c && not_test_not (c_test c) &&
-      (* KF start = length is rejected unless everything is defaulted on an empty sequence *)
-      ((s_start c <? length l1)%nat || (start_absent (c_start c) && start_absent (c_end c) && (length l1 =? 0)%nat)) &&
-      ((s_start2 c <? length l2)%nat || (start_absent (c_start2 c) && start_absent (c_end2 c) && (length l2 =? 0)%nat)) &&
-      (* KF from-end: the index of an element mismatch is counted from the wrong side *)
+      bounds2_ok c &&
+      (* KF from-end: the index of an element mismatch is counted from the wrong side (asserted by mismatch_test.go) *)
       (negb (c_from_end c) ||
        (let w1 := map (key_app (c_key c)) (slice (s_start c) (s_end c l1) l1) in
         let w2 := map (key_app (c_key c)) (slice (s_start2 c) (s_end2 c l2) l2) in
@@ -365,34 +345,25 @@ Definition in_domain (c : call) : bool :=
         | None => true
         | Some j => (j =? Nat.min (length w1) (length w2))%nat
         end))
-  | FSubseq => not_nil (c_seq c)                                       (* KF nil *)
-  | FReplace =>
-      bounds2_ok c &&
-      ((s_start c <? length l1)%nat || (start_absent (c_start c) && start_absent (c_end c) && (length l1 =? 0)%nat) || negb (not_nil (c_seq c))) &&
-      (match c_end c with Some e => (e <? length l1)%nat | None => true end) &&      (* KF :end1 = length *)
-      ((s_start2 c <? length l2)%nat || (start_absent (c_start2 c) && start_absent (c_end2 c) && (length l2 =? 0)%nat))
+  | FSubseq => true
+  | FReplace => bounds2_ok c
   | FFill =>
-      not_nil (c_seq c) && negb (c_end_nil c) && (s_start c <? length l1)%nat &&    (* KF nil, :end nil, :end = length, empty *)
+      not_nil (c_seq c) && negb (c_end_nil c) && (s_start c <? length l1)%nat &&    (* KF nil, :end nil, start / end = length (asserted by fill_test.go) *)
       (match c_end c with Some e => (e <? length l1)%nat | None => true end)
   | FReverse | FNreverse => true
   | FSort | FStableSort => test_strict (c_test c)
-  | FMerge =>
-      test_strict (c_test c) && not_nil (c_seq c) && not_nil (c_seq2 c) &&          (* KF nil; KF ties taken from sequence-2 *)
-      forallb (fun x => forallb (fun y => negb (key_app (c_key c) x =? key_app (c_key c) y)) l2) l1
+  | FMerge => test_strict (c_test c)
   | FUnion | FIntersection => is_list (c_seq c) && is_list (c_seq2 c) && test_equivalence (c_test c)
-  | FSetDifference => is_list (c_seq c) && is_list (c_seq2 c) && not_test_not (c_test c)
-  | FSubsetp => is_list (c_seq c) && is_list (c_seq2 c) && not_nil (c_seq c) && not_nil (c_seq2 c) && not_test_not (c_test c)
-  | FEvery | FNotany | FNotevery =>
-      not_nil (c_seq c) && ((c_nseq c =? 1)%nat || not_nil (c_seq2 c)) && not_test_not (c_test c)
+  | FSetDifference | FSubsetp => is_list (c_seq c) && is_list (c_seq2 c)
+  (* the two-sequence predicate is c_test read as a plain function: TTestNot is not an encoding of a call *)
+  | FEvery | FNotany | FNotevery => not_test_not (c_test c)
   | FSome =>
-      not_nil (c_seq c) && ((c_nseq c =? 1)%nat || not_nil (c_seq2 c)) && not_test_not (c_test c) &&
-      (negb (c_flag c) || ((c_nseq c =? 1)%nat && negb (existsb (pred_app (c_pred c)) l1)))   (* KF some returns t *)
-  | FMap => not_nil (c_seq c) && ((c_nseq c =? 1)%nat || not_nil (c_seq2 c))
+      (* the element-answering predicate (c_flag) is only written for one sequence *)
+      not_test_not (c_test c) && (negb (c_flag c) || (c_nseq c =? 1)%nat)
+  | FMap => true
   | FMapcar => is_list (c_seq c) && ((c_nseq c =? 1)%nat || is_list (c_seq2 c))
   | FReduce =>
-      not_nil (c_seq c) &&
-      (start_absent (c_start c) || (s_start c <? s_end c l1)%nat) &&              (* KF :start = end *)
-      (negb (s_start c =? s_end c l1)%nat || match c_init c with Some _ => true | None => false end)   (* KF (reduce '+ '()) *)
+      (negb (s_start c =? s_end c l1)%nat || match c_init c with Some _ => true | None => false end)   (* KF (reduce '+ '()) => nil (asserted by reduce_test.go) *)
   | FConcatenate => true
   (* KF the -if-not functions do not exist *)
   | FFindIfNot | FPositionIfNot | FCountIfNot | FRemoveIfNot | FDeleteIfNot | FSubstituteIfNot | FNsubstituteIfNot => false
